@@ -238,6 +238,22 @@ class LocalStorageBackend(StorageBackend):
 
         return full_path
 
+    def _resolve_file_target(self, path: str) -> str:
+        """Resolve a path that is about to be WRITTEN as a file.
+
+        The table root itself ('', '.', 'data/..') is inside the boundary but is
+        not a file location: the atomic-write pattern stages a temp file in the
+        target's parent directory, which for the root is OUTSIDE the table. The
+        write could never succeed (the root is a directory); refuse it before
+        anything is created next to the table.
+        """
+        full_path = self._resolve_path(path)
+        if full_path == self._real_base_path():
+            raise IsADirectoryError(
+                f"Cannot write a file at the table root itself: '{path}' resolves to '{full_path}'"
+            )
+        return full_path
+
     def read_file(self, path: str) -> bytes:
         full_path = self._resolve_path(path)
         with open(full_path, "rb") as f:
@@ -267,7 +283,7 @@ class LocalStorageBackend(StorageBackend):
         """
         logger.debug(f"Writing file: {path} ({len(content)} bytes)")
 
-        full_path = self._resolve_path(path)
+        full_path = self._resolve_file_target(path)
         dir_path = os.path.dirname(full_path)
         os.makedirs(dir_path, exist_ok=True)
 
